@@ -198,6 +198,9 @@ func doParsing(mp *msgParser) (err error) {
 	if fieldCount == 0 {
 		return parseError{OrigError: fmt.Sprintf("No Fields detected in %s", string(mp.rawBytes))}
 	}
+	if fieldCount < 3 {
+		return parseError{OrigError: fmt.Sprintf("BeginString, BodyLength and MsgType expected in %s", string(mp.rawBytes))}
+	}
 	if cap(mp.msg.fields) < fieldCount {
 		mp.msg.fields = make([]TagValue, fieldCount)
 	} else {
@@ -234,6 +237,9 @@ func doParsing(mp *msgParser) (err error) {
 	mp.foundBody = false
 	mp.foundTrailer = false
 	for {
+		if mp.fieldIndex >= len(mp.msg.fields) {
+			return parseError{OrigError: "No CheckSum field found in " + string(mp.msg.rawMessage.Bytes())}
+		}
 		mp.parsedFieldBytes = &mp.msg.fields[mp.fieldIndex]
 		if xmlDataLen > 0 {
 			mp.rawBytes, err = extractXMLDataField(mp.parsedFieldBytes, mp.rawBytes, xmlDataLen)
@@ -310,6 +316,11 @@ func parseGroup(mp *msgParser, tags []Tag) {
 
 	for {
 		mp.fieldIndex++
+		if mp.fieldIndex >= len(mp.msg.fields) {
+			// Ran out of fields before any trailer: the caller reports the malformed message.
+			mp.msg.Body.add(dm)
+			return
+		}
 		mp.parsedFieldBytes = &mp.msg.fields[mp.fieldIndex]
 		mp.rawBytes, _ = extractField(mp.parsedFieldBytes, mp.rawBytes)
 		mp.trailerBytes = mp.rawBytes
@@ -547,6 +558,11 @@ func extractXMLDataField(parsedFieldBytes *TagValue, buffer []byte, dataLen int)
 		return
 	}
 	endIndex += dataLen + 1
+	if endIndex >= len(buffer) {
+		err = parseError{OrigError: "extractField: XMLDataLen exceeds the message in " + string(buffer)}
+		remBytes = buffer
+		return
+	}
 
 	err = parsedFieldBytes.parse(buffer[:endIndex+1])
 	return buffer[(endIndex + 1):], err
